@@ -41,6 +41,7 @@ def parseVal (s : String) : Option AVal :=
   | 'i' :: t => (String.ofList t).toInt?.map .int
   | ['b', '0'] => some (.bool false)
   | ['b', '1'] => some (.bool true)
+  | 'm' :: t => (unhexS (String.ofList t)).map .other
   | 'f' :: t =>
     match (String.ofList t).splitOn "~" with
     | [a, b] => do
@@ -55,6 +56,7 @@ def showVal : AVal → String
   | .int n => "i" ++ toString n
   | .bool b => if b then "b1" else "b0"
   | .flt sh t => "f" ++ toString t ++ "~" ++ hexS sh
+  | .other sh => "m" ++ hexS sh
 
 def parseAttrs (s : String) : Option (List (String × AVal)) :=
   if s = "-" then some [] else
@@ -174,6 +176,17 @@ def annotOracles (T : Tab) (ahoPats : List String := []) : Annotate.Oracles wher
         | _, _, _ => none
       | _ => none
     | none => if T.dflt then some ⟨0, 1, 0⟩ else none
+  lca err r :=
+    match T.t.lookup ("lca:" ++ (if err = "" then "-" else err) ++ ":" ++ showRec r) with
+    | some "P" => none
+    | some v =>
+      match v.splitOn "," with
+      | [st, t, n, e] =>
+        match (if st = "-" then some none else (parseVal st).map some), t.toInt?, unhexS n, parseVal e with
+        | some st, some t, some n, some e => some ⟨st, t, n, e⟩
+        | _, _, _, _ => if T.dflt then some ⟨none, 0, "?", .int 0⟩ else none
+      | _ => if T.dflt then some ⟨none, 0, "?", .int 0⟩ else none
+    | none => if T.dflt then some ⟨none, 0, "?", .int 0⟩ else none
 
 /-- Go map assignment on an ordered association list kept sorted by key -/
 def mapPut (k v : String) : List (String × String) → List (String × String)
@@ -219,6 +232,13 @@ def mapKV (x : String) : Option (String × String) :=
     if argOK kv.1 && !(kv.1.contains '=') && kv.2 ≠ "" && !(kv.2.contains '=') then some kv else none
 
 def markA (o : Opts) : Opts := { o with hasAnnot := true }
+
+/-- the `--lca-error` values of the cases: `0` or `0.ddd` (1 to 3 decimals) -/
+def lcaErrOK (x : String) : Bool :=
+  match x.toList with
+  | ['0'] => true
+  | '0' :: '.' :: ds => 1 ≤ ds.length && ds.length ≤ 3 && ds.all Char.isDigit
+  | _ => false
 
 /-- `a.b.c`: canonical naturals ≤ 1000, 1 to 64 of them -/
 def natList (x : String) : Option (List Nat) :=
@@ -287,6 +307,11 @@ def parseOpt (o : Opts) (w : String) : Option Opts :=
   | ["patname", x] => (argS x).bind fun s =>
       if !o.hasPatName && s.all (fun c => c.isLower || c = '_') then
         some (markA { o with hasPatName := true, a := { o.a with patternName := s } }) else none
+  | ["lca", x] => (argS x).bind fun s =>
+      if o.a.lcaSlot = "" && s.all (fun c => c.isLower || c = '_') then
+        some (markA { o with a := { o.a with lcaSlot := s } }) else none
+  | ["lcaerr", x] =>
+      if o.a.lcaError = "" && lcaErrOK x then some (markA { o with a := { o.a with lcaError := x } }) else none
   | ["aho", x] =>
       if o.a.ahoCorasick then none else
       ((x.splitOn ",").mapM fun h => (unhexS h).bind fun q =>
@@ -310,7 +335,8 @@ def parseOpt (o : Opts) (w : String) : Option Opts :=
 /-- `--pattern-error` / `--allows-indels` are options of obigrep that `MatchPatternWorker` reads too -/
 def parseOpts (ws : List String) : Option Opts :=
   (ws.foldlM parseOpt {}).map fun o =>
-    { o with a := { o.a with patternError := o.g.patternError, patternIndel := o.g.patternIndel } }
+    { o with a := { o.a with patternError := o.g.patternError, patternIndel := o.g.patternIndel,
+                             patternBothStrand := !o.g.patternOnlyForward } }
 
 /-- the `--pattern` cases run on non-empty `acgt` sequences -/
 def patSeqOK (o : Opts) (recs : List (Rec × Option Rec)) : Bool :=
@@ -437,7 +463,7 @@ def mpS (m : List (String × String)) : String := "{" ++ ",".intercalate (m.map 
 
 def needsTax (o : Opts) : Bool :=
   !o.g.belongTaxa.isEmpty || !o.g.notBelongTaxa.isEmpty || !o.g.requiredRanks.isEmpty ||
-  !o.a.taxonAtRank.isEmpty || o.a.taxonomicPath || o.a.withRank || o.a.withScientificName
+  !o.a.taxonAtRank.isEmpty || o.a.taxonomicPath || o.a.withRank || o.a.withScientificName || o.a.lcaSlot ≠ ""
 
 /-- the option globals of `obigrep/options.go`, as `obigrep.VerifOptionState` prints them -/
 def grepState (o : Opts) : String :=
@@ -470,7 +496,7 @@ def annotState (o : Opts) : String :=
     "clear=" ++ b01 a.clearAll, "length=" ++ b01 a.setSeqLength,
     "aho-corasick=" ++ (if a.ahoCorasick then "set" else "-"),
     "pattern=" ++ hexS a.pattern, "pattern-name=" ++ hexS a.patternName,
-    "add-lca-in=-",
+    "add-lca-in=" ++ hexS a.lcaSlot,
     "set-identifier=" ++ hexS a.setId,
     "cut=" ++ cutS a.cut o.hasCut,
     "set-tag=" ++ mpS a.evalAttribute, "rename-tag=" ++ mpS a.toBeRenamed,
